@@ -1,13 +1,16 @@
 /-
-Kernel-checked witnesses of the known findings of C02 (known_findings.json), on the toy FPU of Lemmas/FpToy.lean
-(an FPU that meets every contract of `FpuSpec`): the full selection statement `C02_select_Statement` is false.
+Kernel-checked witnesses for C02, on the toy FPU of Lemmas/FpToy.lean (an FPU that meets every contract of `FpuSpec`).
 
-  C02-u64-to-f32-signed        (float)(unsigned long)2^63: the cell is `cvtsi2ssq %rax, %xmm0`, which reads 2^63 as −2^63;
-                               the result has its sign bit set, the C11 result has not.
-  C02-fp-to-u64-above-2p63     (unsigned long)x for the double x = 3·2^62: the cell is `cvttsd2siq %xmm0, %rax`, which
-                               returns the integer indefinite 0x8000000000000000 because 3·2^62 ≥ 2^63.
-  C02-literal-double-rounding  rounding to 64 significant bits (what `strtold` does) and then to 53 is not rounding to 53:
-                               2^64 + 2^11 + 1 → 2^64 + 2^11 → 2^64 (tie, to even), but directly → 2^64 + 2^12.
+All three former known findings of C02 were REPAIRED in /repo (known_findings.json, "fixed"); nothing is open.  What is
+kept here are witnesses that the *old* formulas were wrong (so the repairs were needed, and a revert is a defect), each
+beside the statement that the current, regenerated code is right on the same input:
+
+  C02-u64-to-f32-signed        (repaired, /repo cb60798) old cell `cvtsi2ssq %rax, %xmm0`: (float)(unsigned long)2^63 had its
+                               sign bit set.  Now: the halving sequence; `C02_select` covers all 2^64 values.
+  C02-fp-to-u64-above-2p63     (repaired, /repo d20bf97) old cell `cvttsd2siq %xmm0, %rax`: (unsigned long)x for x = 3·2^62 was
+                               the integer indefinite 0x8000000000000000.  Now: compare with 2^63, subtract, set bit 63.
+  C02-literal-double-rounding  (repaired, /repo 0b14cf9) old path `strtold` then narrowing: round₅₃ ∘ round₆₄ ≠ round₅₃ at
+                               2^64 + 2^11 + 1.  Now: `strtod`/`strtof` of the spelling (`C02_const_parser`, `C02_const_rounded`).
 -/
 import ChibiVerif.Props.C02
 
@@ -19,51 +22,85 @@ open ChibiVerif.Spec.IntSpec ChibiVerif.Props.C02
 def st0 (r x : BitVec 64) : FState :=
   ⟨{ regs := fun _ => r, mem := fun _ => 0 }, x, 0, [], 0x37f#16⟩
 
-/-- **C02-u64-to-f32-signed** -/
-theorem C02_finding_u64_to_f32_signed : ¬ C02_select_Statement := by
-  intro h
-  obtain ⟨s', hrun, hhold, _⟩ := h Toy.toy (.int .u64) .f32 (st0 0x8000000000000000#64 0) (.int 9223372036854775808)
-    (.f32 (Toy.toy.ofInt32 9223372036854775808)) (Or.inr rfl)
-    (by simp [Holds, RInt, ITy.inRange, ITy.min, ITy.max, ITy.signed, ITy.bits, State.get, st0]) rfl
-  obtain ⟨s'', hrun', hx, _⟩ := eff_u64f32 Toy.toy (st0 0x8000000000000000#64 0)
-  have hs : s' = s'' := Option.some.inj (hrun.symm.trans hrun')
-  subst hs
-  simp only [Holds] at hhold
-  have h1 := Toy.toy.ofInt32_sign 9223372036854775808
-  have h2 := Toy.toy.ofInt32_sign (-9223372036854775808)
-  rw [← hhold, hx, Toy.toy.cvtsi2ss64_spec] at h1
-  have e : (State.get (st0 0x8000000000000000#64 0).x Reg.rax).toInt = -9223372036854775808 := by decide
-  rw [e, h2] at h1
-  exact absurd h1 (by decide)
+/-! ### C02-u64-to-f32-signed (repaired) -/
+
+/-- the cell as it was before the repair -/
+def old_u64f32 : List Ins := [⟨"cvtsi2ssq", [.r "%rax", .r "%xmm0"]⟩]
+
+/-- the old cell on 2^63: the result is negative, the C11 result `ofInt32 2^63` is not -/
+theorem C02_old_u64_to_f32_signed :
+    ∃ s', Fp.run Toy.toy old_u64f32 (st0 0x8000000000000000#64 0) = some s' ∧
+      (s'.xmm0.setWidth 32).msb = true ∧ (Toy.toy.ofInt32 9223372036854775808).msb = false := by
+  refine ⟨_, rfl, ?_, ?_⟩
+  · have h2 := Toy.toy.ofInt32_sign (-9223372036854775808)
+    have e : (State.get (st0 0x8000000000000000#64 0).x Reg.rax).toInt = -9223372036854775808 := by decide
+    show ((setLow32 (st0 0x8000000000000000#64 0).xmm0
+      (Toy.toy.cvtsi2ss64 ((st0 0x8000000000000000#64 0).x.get Reg.rax))).setWidth 32).msb = true
+    rw [setLow32_low, Toy.toy.cvtsi2ss64_spec, e, h2]; decide
+  · rw [Toy.toy.ofInt32_sign]; decide
+
+/-- the current cell on the same input: the C11 result, bit for bit -/
+theorem C02_fixed_u64_to_f32 :
+    ∃ s', Fp.run Toy.toy (castSeq (.int .u64) .f32) (st0 0x8000000000000000#64 0) = some s' ∧
+      s'.xmm0.setWidth 32 = Toy.toy.ofInt32 9223372036854775808 := by
+  obtain ⟨s', h1, h2, _⟩ := C02_u64f32 Toy.toy (st0 0x8000000000000000#64 0) 9223372036854775808
+    (by simp [Holds, RInt, ITy.inRange, ITy.min, ITy.max, ITy.signed, ITy.bits, State.get, st0])
+  exact ⟨s', h1, h2⟩
+
+/-! ### C02-fp-to-u64-above-2p63 (repaired) -/
 
 /-- the toy double 3·2^62: q = 3, shift 62 -/
 def x3p62 : BitVec 64 := BitVec.ofNat 64 (Toy.enc 57 false 3 62)
 
-/-- **C02-fp-to-u64-above-2p63** -/
-theorem C02_finding_fp_to_u64_above_2p63 : ¬ C02_select_Statement := by
-  intro h
-  have hval : Toy.toy.val64 x3p62 = .fin false 3 62 := by decide
-  obtain ⟨s', hrun, hhold, _⟩ := h Toy.toy .f64 (.int .u64) (st0 0 x3p62) (.f64 x3p62) (.int 13835058055282163712)
-    (Or.inl rfl) (by simp [Holds, st0])
-    (by simp only [ChibiVerif.Spec.FpC11.convert, hval, fpToInt]; decide)
-  obtain ⟨s'', hrun', hx, _⟩ := eff_f64u64 Toy.toy (st0 0 x3p62)
-  have hs : s' = s'' := Option.some.inj (hrun.symm.trans hrun')
-  subst hs
-  simp only [Holds, RInt] at hhold
-  have e : State.get s'.x Reg.rax = 0x8000000000000000#64 := by
-    rw [hx, Toy.toy.cvttsd2si64_spec]
-    show truncTo 64 (Toy.toy.val64 x3p62) = _
-    rw [hval]; decide
-  rw [e] at hhold
-  exact absurd hhold.2 (by decide)
+def old_f64u64 : List Ins := [⟨"cvttsd2siq", [.r "%xmm0", .r "%rax"]⟩]
 
-/-- **C02-literal-double-rounding** (the arithmetic core): round₅₃ ∘ round₆₄ ≠ round₅₃ at 2^64 + 2^11 + 1
-    (the literal `18446744073709553665.0`; chibicc gives 0x43f0000000000000, C11/gcc 0x43f0000000000001) -/
-theorem C02_finding_literal_double_rounding : ¬ C02_const_Statement := by
+/-- the old cell on 3·2^62 ≥ 2^63: the integer indefinite, not 13835058055282163712 -/
+theorem C02_old_fp_to_u64_above_2p63 :
+    ∃ s', Fp.run Toy.toy old_f64u64 (st0 0 x3p62) = some s' ∧ s'.x.get .rax = 0x8000000000000000#64 ∧
+      fpToInt .u64 (Toy.toy.val64 x3p62) = some 13835058055282163712 := by
+  have hval : Toy.toy.val64 x3p62 = .fin false 3 62 := by decide
+  refine ⟨_, rfl, ?_, ?_⟩
+  · show truncTo 64 (Toy.toy.val64 x3p62) = _
+    rw [hval]; decide
+  · rw [hval]; decide
+
+/-- the current cell on the same input: the integral part -/
+theorem C02_fixed_fp_to_u64 :
+    ∃ s', Fp.run Toy.toy (castSeq .f64 (.int .u64)) (st0 0 x3p62) = some s' ∧
+      ((s'.x.get .rax).toNat : Int) = 13835058055282163712 := by
+  have hval : (Toy.toy.val64 x3p62).trunc? = some 13835058055282163712 := by decide
+  obtain ⟨s', h1, h2, _⟩ := (C02_fp_to_u64 Toy.toy (st0 0 x3p62) 13835058055282163712 (by decide)).2.1 x3p62 rfl hval
+  exact ⟨s', h1, h2⟩
+
+/-! ### C02-literal-double-rounding (repaired) -/
+
+/-- the old path (the arithmetic core): rounding to the 64 bits of `strtold`'s long double and then to 53 (or 24) is not
+    rounding to 53 (24): 2^64 + 2^11 + 1 → 2^64 + 2^11 → 2^64 (tie, to even), but directly → 2^64 + 2^12
+    (the literal `18446744073709553665.0`; the old chibicc gave 0x43f0000000000000, C11/gcc 0x43f0000000000001) -/
+theorem C02_old_literal_double_rounding :
+    ¬ (∀ n : Nat, roundNat 53 (roundNat 64 n) = roundNat 53 n ∧ roundNat 24 (roundNat 64 n) = roundNat 24 n) := by
   intro h
   exact absurd (h 18446744073709553665).1 (by decide)
 
-/-! ### repaired defects (fix: commits recorded in known_findings.json): the current table, checked -/
+/-- … the old path was right for every spelling whose value has at most 64 significant bits: the first rounding is the identity -/
+theorem C02_old_literal_exact_below_2p64 (n : Nat) (h : n < 2 ^ 64) :
+    roundNat 53 (roundNat 64 n) = roundNat 53 n ∧ roundNat 24 (roundNat 64 n) = roundNat 24 n := by
+  have hb : bitLen n ≤ 64 := by
+    unfold bitLen
+    split
+    · omega
+    · rename_i h0
+      have := (Nat.log2_lt h0).2 h
+      omega
+  have e : roundNat 64 n = n := by simp [roundNat, roundQS, hb]
+  rw [e]; exact ⟨rfl, rfl⟩
+
+/-- the current ladder, as regenerated: no arm narrows a `strtold` result -/
+theorem C02_fixed_literal_parsers :
+    Gen.FpLiteral.suffixArms.map (fun a => (a.2.1, a.2.2)) ++ [Gen.FpLiteral.defaultArm] =
+      [(.ty_float, .strtof), (.ty_ldouble, .strtold), (.ty_double, .strtod)] := by decide
+
+/-! ### earlier repairs (fix: commits recorded in known_findings.json): the current table, checked -/
 
 /-- (short)ld / (unsigned short)ld / (unsigned)ld reload with the right width and extension, and (unsigned)ld stores 64 bits -/
 theorem C02_fixed_f80_cells :
